@@ -1,1 +1,67 @@
-// environment stand-ins, see DESIGN.md 2.4
+// Environment stand-ins and helpers shared by harnesses (DESIGN.md 2.4).
+// Compiled under cfg(kani) (solver world) and cfg(verif_replay) (native replay world).
+#![allow(dead_code, unused_imports, clippy::all)]
+
+#[cfg(kani)]
+pub use crate::verif_shim::{BTreeMap, BTreeSet};
+#[cfg(not(kani))]
+pub use std::collections::{BTreeMap, BTreeSet};
+
+pub const CAP: usize = crate::verif_cfg::SHIM_CAP;
+
+/// Build a map from explicit slot contents.  Under Kani this sets the shim's arrays
+/// directly (symbolic pre-state, caller assumes validity); natively it inserts into the
+/// real std BTreeMap.
+#[cfg(kani)]
+pub fn map_from_parts<K: Ord, V>(len: usize, keys: [Option<K>; CAP], vals: [Option<V>; CAP]) -> BTreeMap<K, V> {
+  BTreeMap::verif_from_parts(len, keys, vals)
+}
+#[cfg(not(kani))]
+pub fn map_from_parts<K: Ord, V>(len: usize, keys: [Option<K>; CAP], vals: [Option<V>; CAP]) -> BTreeMap<K, V> {
+  let mut m = BTreeMap::new();
+  for (j, (k, v)) in keys.into_iter().zip(vals.into_iter()).enumerate() {
+    if j < len {
+      if let (Some(k), Some(v)) = (k, v) {
+        m.insert(k, v);
+      }
+    }
+  }
+  m
+}
+
+#[cfg(kani)]
+pub fn map_is_valid<K: Ord, V>(m: &BTreeMap<K, V>) -> bool {
+  m.verif_is_valid()
+}
+#[cfg(not(kani))]
+pub fn map_is_valid<K: Ord, V>(_m: &BTreeMap<K, V>) -> bool {
+  true
+}
+
+/// kani::stub target for std::fmt::format — formatting is never the subject.
+pub fn stub_format(_args: core::fmt::Arguments<'_>) -> String {
+  String::new()
+}
+
+/// kani::stub target for alloc::vec::from_elem (what `vec![x; n]` expands to).  CBMC copes
+/// badly with allocations of symbolic size; this keeps the allocation size concrete
+/// (VEC_ELEM_CAP elements) while the LENGTH stays symbolic.  n > VEC_ELEM_CAP is outside
+/// the bound (assume(false)), which every harness using it states.
+pub const VEC_ELEM_CAP: usize = 9;
+#[cfg(kani)]
+pub fn stub_vec_from_elem<T: Clone>(elem: T, n: usize) -> Vec<T> {
+  kani::assume(n <= VEC_ELEM_CAP);
+  let mut v = Vec::with_capacity(VEC_ELEM_CAP);
+  let mut i = 0;
+  while i < VEC_ELEM_CAP {
+    if i < n {
+      v.push(elem.clone());
+    }
+    i += 1;
+  }
+  v
+}
+#[cfg(not(kani))]
+pub fn stub_vec_from_elem<T: Clone>(elem: T, n: usize) -> Vec<T> {
+  vec![elem; n]
+}
